@@ -26,6 +26,9 @@ vars == <<sc, done>>
 
 Subsets == SUBSET Universe \ {{}}
 NestSeqs == UNION {[1..k -> Subsets] : k \in 1..MaxNests}
+\* longer structures of small nests inside the choice set: an overlap may be between nests that are not neighbours
+SmallNests == {S \in SUBSET ChoiceSet : Cardinality(S) \in 1..2}
+LongNestSeqs == [1..(MaxNests + 1) -> SmallNests]
 NestsValid(kind, ns) ==
     /\ \A i \in 1..Len(ns) : ns[i] \subseteq ChoiceSet
     /\ (kind = "nested" => \A i, j \in 1..Len(ns) : i # j => ns[i] \cap ns[j] = {})
@@ -51,6 +54,8 @@ MissSets == SUBSET {"x", "z", "w", "k", "c1", "c2"}
 Init == /\ done = FALSE
         /\ \/ "nests" \in Families /\ \E kind \in {"nested", "cross"}, ns \in NestSeqs :
                  sc = [fam |-> "nests", kind |-> kind, nests |-> ns, valid |-> NestsValid(kind, ns)]
+           \/ "nests" \in Families /\ \E ns \in LongNestSeqs :
+                 sc = [fam |-> "nests", kind |-> "nested", nests |-> ns, valid |-> NestsValid("nested", ns)]
            \/ "data" \in Families /\ \E t \in Tables : sc = [fam |-> "data", table |-> t, valid |-> DataValid(t)]
            \/ "flags" \in Families /\ \E g, h, b \in BOOLEAN :
                  sc = [fam |-> "flags", g |-> g, h |-> h, b |-> b, valid |-> FlagsValid(g, h, b)]
